@@ -505,3 +505,8 @@ for _cas in (False, True):
 # recovery-aware resolver (not from the raw pointer text), in MetadataManager.commit (harness shared with C01/C08)
 from contracts import commitpath as _cp  # noqa: E402
 register(Unit(P, "WRITABLE/MetadataManager.commit-local", _cp.h_mm_commit("local"), functions=[f"{MM}:MetadataManager.commit"], replay=_cp._replay_mm_commit))
+
+from contracts import helpers as _H  # noqa: E402
+# NAME-RT (parse(name_for(v)) == (v, name) for all v) was attempted (contracts/helpers.py h_name_roundtrip): z3 and cvc5 both answer
+# unknown within 60 s per path (IntToStr / regex group / StrToInt chains) - it stays the BOUNDED stand-in _bounded_parse above.
+_H.register_under(P, ["HELPER/metadata-file-io"], replay=_replay_parse)
